@@ -1,5 +1,5 @@
 (* Inner.v — the cycle arithmetic of inner.rs (as translated in Gen.v) against the closed forms of Spec.v. *)
-From JV Require Import Sem Gen Spec.
+From JV Require Import Sem Gen Spec SpecX.
 From JV.Proofs Require Import SpecFacts.
 Open Scope Z_scope.
 Ltac Zify.zify_post_hook ::= Z.to_euclidean_division_equations.
@@ -8,8 +8,6 @@ Ltac consts :=
   unfold inner_JULIAN_LEAP_CYCLE_DAYS, inner_JULIAN_LEAP_CYCLE_YEARS, inner_GREGORIAN_CYCLE_DAYS,
     inner_GREGORIAN_CYCLE_YEARS, LEAP_YEAR_LENGTH, COMMON_YEAR_LENGTH, inner_JDN0_YEAR,
     UNIX_EPOCH_JDN, SECONDS_IN_DAY in *.
-
-Definition in_i32b z := (i32_min <=? z) && (z <=? i32_max).
 Lemma in_i32b_iff z : in_i32b z = true <-> in_i32 z.
 Proof. unfold in_i32b, in_i32. lia. Qed.
 
@@ -74,7 +72,6 @@ Proof.
 Qed.
 
 (* ------------------------------------------------------------------ (year, ordinal) -> day number *)
-Definition chk_jdn (v : Z) : option Z := if in_i32b v then Some v else None.
 
 Lemma julian2jdn_ok y o : in_i32 y -> 1 <= o <= 366 ->
   inner_julian2jdn y o = Ret (chk_jdn (J0 y + o - 1)).
